@@ -443,13 +443,17 @@ func runStoreHist(c *Ctx, in M) (M, interface{}) {
 		for i, o := range ops {
 			op := o.(map[string]interface{})
 			switch gets(op, "op") {
-			case "createDs", "store", "txn", "deleteDs", "renameDs", "setPublicNs":
+			case "createDs", "store", "txn", "deleteDs", "renameDs", "setPublicNs", "compact":
 				r.mutate(i, op)
 			case "msrun":
 				obs = append(obs, r.msrun(op))
 			case "crash":
-				r.crash(i, op)
-				obs = append(obs, M{"landed": getb(op, "landed")})
+				extra := r.crash(i, op)
+				o := M{"landed": getb(op, "landed")}
+				for k, v := range extra {
+					o[k] = v
+				}
+				obs = append(obs, o)
 			case "dup":
 				ds := r.h.Dsm.GetDataset(gets(op, "ds"))
 				if ds == nil {
@@ -469,11 +473,6 @@ func runStoreHist(c *Ctx, in M) (M, interface{}) {
 				} else {
 					r.times[i] = int64(t)
 					op["t"] = t
-				}
-			case "compact":
-				cw := dsvc.NewCompactor(r.h.Store, r.h.Dsm, quietLogger())
-				if err := cw.VerifCompact(gets(op, "ds"), geti(op, "threshold")); err != nil {
-					op["rc"] = "err"
 				}
 			case "backup":
 				if r.bm == nil {
@@ -578,6 +577,11 @@ func (r *histRun) mutate(i int, op M) {
 		}
 		for _, p := range getl(op, "parts") {
 			r.noteIDs(op, getl(p.(map[string]interface{}), "ents"))
+		}
+	case "compact":
+		cw := dsvc.NewCompactor(r.h.Store, r.h.Dsm, quietLogger())
+		if err := cw.VerifCompact(gets(op, "ds"), geti(op, "threshold")); err != nil {
+			op["rc"] = "err"
 		}
 	case "setPublicNs":
 		// what a client does to change a dataset's public namespaces: re-post its entity in core.Dataset
@@ -957,7 +961,7 @@ func genStoreBig(c *Ctx, profile string) {
 func genStore(c *Ctx, profile string) {
 	genStoreBig(c, profile)
 	var crashPts crashPoints
-	if profile == "c04" {
+	if profile == "c04" || profile == "c12" {
 		crashPts = loadCrashPoints()
 	}
 	n := map[string]int{"quick": 200, "thorough": 900}[c.Tier]
@@ -1075,7 +1079,12 @@ func genStore(c *Ctx, profile string) {
 				if c.Rng.Intn(2) == 0 {
 					ops = append(ops, M{"op": "dup", "ds": ds, "id": g.ids[c.Rng.Intn(len(g.ids))]})
 				} else {
-					ops = append(ops, M{"op": "compact", "ds": ds, "threshold": []int{1, 2, 3, 100000}[c.Rng.Intn(4)]})
+					cop := M{"op": "compact", "ds": ds, "threshold": []int{1, 2, 3, 100000}[c.Rng.Intn(4)]}
+					if pts := crashPts.Points["flushDeletes"]; len(pts) > 1 && c.Rng.Intn(3) == 0 {
+						// the compactor is killed right after its n-th flush (or right before its first)
+						cop = M{"op": "crash", "point": pts[c.Rng.Intn(len(pts))], "hit": 1 + c.Rng.Intn(3), "inner": cop}
+					}
+					ops = append(ops, cop)
 				}
 				for q := 0; q < 1+c.Rng.Intn(3); q++ {
 					ops = append(ops, g.queries(len(ops), nops)...)
